@@ -300,3 +300,7 @@ def run(ctx, rep):
     for o in r2.obligations:
         if o["instance"].startswith("30-day"):
             rep.ob("R7", o["instance"], o["ok"], o["detail"], o["site"], key="R7:" + o["instance"])
+    # "…with acquisitions OF IT … rescaled across intervening splits" of that same security: candidate buys and ratio
+    # updates of the look-ahead sit under the ticker guard (shared with C02-R6 / C09-R2)
+    import rules.c02 as c02
+    c02.same_security(R, rep, "R8")
